@@ -198,6 +198,7 @@ func (c *Check) finish(tier string, seed uint64, outs []RunOut, findings *kit.Fi
 		fmt.Printf("  key=%s (seen %d times)\n  %s\n", k, keyCount[k], v.Detail)
 		exit = 1
 	}
+	findings.PrintUnmet(c.Property, knownSeen)
 	cov := map[string]interface{}{
 		"evaluations":         evals,
 		"distinct_nontrivial": len(prints),
